@@ -663,6 +663,14 @@ class Interpreter:
             elif isinstance(leaf, CompoundState) and leaf.initial:
                 return MicroStep(entered_states=[leaf.initial])
 
+        # An orthogonal state that was entered through one of its descendants still
+        # has to enter its other children
+        for name in sorted(names, key=lambda s: (-self._statechart.depth_for(s), s)):
+            if isinstance(self._statechart.state_for(name), OrthogonalState):
+                missing = [c for c in self._statechart.children_for(name) if c not in names]
+                if missing:
+                    return MicroStep(entered_states=sorted(missing))
+
         return None
 
     def _apply_step(self, step: MicroStep) -> MicroStep:
